@@ -674,6 +674,19 @@ def classes_of(case, m: RefModel, vs) -> list[str]:
     return sorted(cl)
 
 
+
+def run_chunks(col, cfg, strategy, body):
+    """Spend cfg['per_shard'] examples in chunks so that an expired budget stops generation after at most one chunk
+    (hyp_run keeps generating examples after expiry).  Chunk 0 uses the plain shard seed."""
+    left, i = int(cfg["per_shard"]), 0
+    chunk = int(cfg.get("chunk", 1250))
+    while left > 0 and not col.expired():
+        n = min(chunk, left)
+        hyp_run(strategy, body, n, shard_seed(col.seed, col.shard) + 7919000 * i, col)
+        left -= n
+        i += 1
+
+
 def run_shard(col, cfg):
     def body(case):
         if not valid_case(case):
@@ -682,4 +695,4 @@ def run_shard(col, cfg):
         vs, m = judge(case, steps)
         col.record(case, nontrivial_of(m), classes=classes_of(case, m, vs), violations=vs)
 
-    hyp_run(cases(cfg["max_ops"]), body, cfg["per_shard"], shard_seed(col.seed, col.shard), col)
+    run_chunks(col, cfg, cases(cfg["max_ops"]), body)
